@@ -1750,6 +1750,33 @@ class Engine:
             x = self._through_ref(st, argvals[0])
             y = self._through_ref(st, argvals[1])
             return self.compare(st, ty, op, x, y)
+        m = re.match(r"^<(\w+) as (TryFrom|From)<(\w+)>>::(try_from|from)$", c)
+        if m and m.group(1) in INT_TYPES and m.group(3) in INT_TYPES and a0 is not None:
+            x = a0.get(())
+            if is_z(x) and z3.is_bv(x):
+                dbits, dsigned = INT_TYPES[m.group(1)]
+                sbits, ssigned = INT_TYPES[m.group(3)]
+                if dbits >= sbits:
+                    conv = z3.SignExt(dbits - sbits, x) if ssigned else z3.ZeroExt(dbits - sbits, x)
+                    if dbits == sbits:
+                        conv = x
+                else:
+                    conv = z3.Extract(dbits - 1, 0, x)
+                if m.group(2) == "From":
+                    return {(): conv}
+                # value preserved?  (compare as integers)
+                xi = z3.BV2Int(x, ssigned)
+                lo = -(1 << (dbits - 1)) if dsigned else 0
+                hi = (1 << (dbits - 1)) - 1 if dsigned else (1 << dbits) - 1
+                if dbits >= sbits and (dsigned == ssigned or (dsigned and dbits > sbits)):
+                    ok = z3.BoolVal(True)
+                elif dbits == sbits and not dsigned and ssigned:
+                    ok = x >= 0
+                elif dbits == sbits and dsigned and not ssigned:
+                    ok = z3.ULE(x, z3.BitVecVal(hi, sbits))
+                else:
+                    ok = z3.And(xi >= lo, xi <= hi)
+                return {("disc",): z3.If(ok, z3.IntVal(0), z3.IntVal(1)), (("v", "Ok"), ("f", 0)): conv}
         m = re.match(r"^(?:std::cmp::|core::cmp::)?(min|max)::<(.*)>$", c)
         if m and len(argvals) == 2:
             x, y = argvals
@@ -1782,15 +1809,17 @@ class Engine:
             dy = self._disc_of(st, y, ty)
             px = self._payload(st, x, ("v", "Some"), "cmpx")
             py = self._payload(st, y, ("v", "Some"), "cmpy")
-            ox, oy = self.ord_var(px), self.ord_var(py)
-            if is_z(px) and is_z(py) and z3.is_bv(px):
+            if is_z(px) and is_z(py) and z3.is_bv(px) and z3.is_bv(py) and px.size() == py.size():
                 inner = re.match(r"^.*Option<(.*)>$", ty.strip())
                 signed = INT_TYPES.get(inner.group(1).strip(), (0, False))[1] if inner else False
-                ox = z3.BV2Int(px, signed)
-                oy = z3.BV2Int(py, signed)
+                plt = (px < py) if signed else z3.ULT(px, py)
+                peq = px == py
+            else:
+                ox, oy = self.ord_var(px), self.ord_var(py)
+                plt, peq = ox < oy, ox == oy
             # derive semantics: None < Some(_); Some(a) vs Some(b) by a, b
-            lt = z3.Or(z3.And(dx == 0, dy == 1), z3.And(dx == 1, dy == 1, ox < oy))
-            eq = z3.Or(z3.And(dx == 0, dy == 0), z3.And(dx == 1, dy == 1, ox == oy))
+            lt = z3.Or(z3.And(dx == 0, dy == 1), z3.And(dx == 1, dy == 1, plt))
+            eq = z3.Or(z3.And(dx == 0, dy == 0), z3.And(dx == 1, dy == 1, peq))
         elif lx is not None and ly is not None and is_z(lx) and is_z(ly) and lx.sort() == ly.sort() and z3.is_bv(lx):
             signed = INT_TYPES.get(ty, (0, False))[1]
             lt = (lx < ly) if signed else z3.ULT(lx, ly)
